@@ -28,6 +28,9 @@ def find_peaks(data, min_peak_distance, min_peak_height):
         if not isinstance(min_peak_height, float) and not isinstance(min_peak_height, int):
             raise TypeError(f"'min_peak_height' should be a float or int value, or numpy.inf, not {type(min_peak_height)}.")
 
+    if data.dtype.kind == 'f':
+        # compare in double precision: a Python scalar would otherwise be rounded to the (narrower) dtype of the data first
+        min_peak_height = _np.float64(min_peak_height)
     dtype = _np.int64 if len(data) > 2**30 else _np.int32
     tmp = _np.r_[True, data[1:] >= data[:-1]] & _np.r_[data[:-1] >= data[1:], True]
     maximas = (_np.hstack(_np.where((data >= min_peak_height) & (tmp)))).astype(dtype)
@@ -85,6 +88,9 @@ def find_width(data, direction, threshold, min_width, max_width=None, delta=None
 
     # Samples that are not strictly beyond the threshold. They are compared directly: multiplying the data by the direction
     # sign overflows unsigned dtypes and wraps the lowest value of signed ones.
+    if data.dtype.kind == 'f':
+        # compare in double precision: a Python scalar would otherwise be rounded to the (narrower) dtype of the data first
+        threshold = _np.float64(threshold)
     if direction is Direction.POSITIVE:
         tmp = _np.where(data <= threshold)[0]
     else:
